@@ -108,7 +108,93 @@ func (s *c01) open() bool {
 	return true
 }
 
+// c01Bulk: ONE memstore generation that receives far more log than any size the log might cut itself at (150 MiB of
+// incompressible 1 MiB values over 8 keys with every option at its default), then small last values and a delete, a
+// clean Close and two further clean sessions that only read.
+func c01Bulk(c *fw.Case) {
+	r := c.R
+	s := &c01{c: c, model: map[string]string{}}
+	for i := 0; i < 8; i++ {
+		s.keys = append(s.keys, fmt.Sprintf("bulk%02d", i))
+	}
+	c.HashAdd("bulk")
+	openDefault := func() bool {
+		db, err := simpledb.NewSimpleDB(c.Dir)
+		if err == nil {
+			err = db.Open()
+		}
+		if err != nil {
+			c.Violate("db/open-error", "Open with default options failed: %v\n%s", err, s.ctx())
+			return false
+		}
+		s.db = db
+		return true
+	}
+	if !openDefault() {
+		return
+	}
+	var logged int64
+	for s.step = 0; s.step < 150; s.step++ {
+		k := s.keys[s.step%len(s.keys)]
+		v := fmt.Sprintf("bulk.%d-", s.step) + string(gen.Bytes(r, 1<<20))
+		s.note("Put(%s,%d bytes)", k, len(v))
+		if err := s.db.Put(k, v); err != nil {
+			c.Violate("db/op-error/put", "Put(%q) failed: %v\n%s", k, err, s.ctx())
+			return
+		}
+		s.model[k] = v
+		logged += int64(len(v))
+	}
+	for i, k := range s.keys {
+		if i == 3 {
+			s.note("Delete(%s)", k)
+			if err := s.db.Delete(k); err != nil {
+				c.Violate("db/op-error/delete", "Delete(%q) failed: %v\n%s", k, err, s.ctx())
+				return
+			}
+			delete(s.model, k)
+			continue
+		}
+		v := fmt.Sprintf("last-%d", i)
+		s.note("Put(%s,%d bytes)", k, len(v))
+		if err := s.db.Put(k, v); err != nil {
+			c.Violate("db/op-error/put", "Put(%q) failed: %v\n%s", k, err, s.ctx())
+			return
+		}
+		s.model[k] = v
+	}
+	c.Obs("bulk_sessions_bytes_logged_in_one_memstore_generation", logged)
+	if !s.checkAll("end") {
+		return
+	}
+	for i := 0; i < 2; i++ {
+		s.note("Close")
+		if err := s.db.Close(); err != nil {
+			c.Violate("db/op-error/close", "Close failed: %v\n%s", err, s.ctx())
+			return
+		}
+		s.session++
+		s.note("Open[defaults]")
+		if !openDefault() {
+			return
+		}
+		c.Obs("reopens", 1)
+		if !s.checkAll("after-reopen") {
+			return
+		}
+	}
+	if err := s.db.Close(); err != nil {
+		c.Violate("db/op-error/close", "final Close failed: %v\n%s", err, s.ctx())
+		return
+	}
+	c.Nontrivial()
+}
+
 func runC01(c *fw.Case) {
+	if c.Idx%1000 == 6 {
+		c01Bulk(c)
+		return
+	}
 	r := c.R
 	live := c.Idx%2 == 1
 	s := &c01{c: c, model: map[string]string{}, live: live}
